@@ -1,4 +1,5 @@
 SPECIFICATION Spec
-CONSTANT Mutant = "alg_agreement_dropped"
+CONSTANTS Mutant = "alg_agreement_dropped"
+  Full = FALSE
 INVARIANTS InvTypes InvSignature InvUnsigned InvAlgKey InvAlgAllowed InvIssuer InvAudience InvScopes InvValidity InvKidUnique InvMerge InvRefines InvVerdict
 CHECK_DEADLOCK FALSE
